@@ -11,8 +11,10 @@ from . import defs as D
 from . import explore as X
 from . import tlc
 
-BROKEN = {"yaql": ["<% 1 +/ 2) %>", "<% ctx(x %>", "<% 'abc %>", "<% 1 ++ %>"],
-          "jinja": ["{{ 1 +/ 2) }}", "{{ ctx('x' }}", "{{ 'abc }}", "{{ 1 | }}"]}
+BROKEN = {"yaql": ["<% 1 +/ 2) %>", "<% ctx(x %>", "<% 'abc %>", "<% 1 ++ %>", "<% ctx().x + %>", "<% ctx(x) 1 %>",
+                   "<% ctx('x').len( %>", "<% result() and %>"],
+          "jinja": ["{{ 1 +/ 2) }}", "{{ ctx('x' }}", "{{ 'abc }}", "{{ 1 | }}", "{{ ctx().x + }}", "{{ ctx('x') 1 }}",
+                    "{{ ctx('x') | }}", "{{ result() and }}"]}
 
 
 def enumerate_faults(defs, workdir):
@@ -144,7 +146,14 @@ def inspect_groups(defs, faults, seed=0, cap=None):
     jobs = []
     for i, f in enumerate(faults):
         d = by[f["def"]]
-        jobs.append((d, f["fault"], f["expect"], ("yaql", "jinja")[(i + seed) % 2], (i // 2 + seed) % 4))
+        if f["fault"]["kind"] == "grammar":
+            # every entry of the broken-expression corpus, both languages
+            for lang in ("yaql", "jinja"):
+                for v in range(len(BROKEN[lang])):
+                    if (i + v + seed) % 3 == 0 or f["fault"]["pos"] in ("when", "publish", "vars"):
+                        jobs.append((d, f["fault"], f["expect"], lang, v))
+        else:
+            jobs.append((d, f["fault"], f["expect"], ("yaql", "jinja")[(i + seed) % 2], (i // 2 + seed) % 4))
     if cap and len(jobs) > cap:
         jobs = rng.sample(jobs, cap)
     with mp.Pool(16) as pool:
